@@ -18,6 +18,7 @@ import JanetModel.Lib.BufC
 import JanetModel.Lib.ArrC
 import JanetModel.Lib.Boot2
 import JanetModel.Lib.BufPushC
+import JanetModel.Lib.StrReplC
 open Driver JanetModel.Lib
 
 inductive V where
@@ -294,18 +295,22 @@ def call (f : String) (args : List V) : Out :=
   | "string/replace", pat :: subst :: text :: rest =>
     if (bytesOf subst).isNone then .skip else
     if rest.length > 1 then .err args else
-    (match bytesOf pat, bytesOf subst, bytesOf text, natStart rest.head? with
-     | some p, some s, some t, some st =>
-       (match replace p s t st with | none => .err args | some r => .ok (.str 0 r) args)
+    (match bytesOf pat, bytesOf subst, bytesOf text, optStart rest.head? with
+     | some p, some s, some t, some sti =>
+       let spec : Option Bytes := (natOfStart sti).bind (fun st => replace p s t st)
+       withMirror (StrC.replace p s t sti) spec args
+       (match spec with | none => .err args | some r => .ok (.str 0 r) args)
      | _, _, _, _ => .err args)
   | "string/replace-all", pat :: subst :: text :: rest =>
     if (bytesOf subst).isNone then .skip else
     if rest.length > 1 then .err args else
-    (match bytesOf pat, bytesOf subst, bytesOf text, natStart rest.head? with
-     | some p, some s, some t, some st =>
-       (match replaceAll p s t st with
+    (match bytesOf pat, bytesOf subst, bytesOf text, optStart rest.head? with
+     | some p, some s, some t, some sti =>
+       let spec : Option Bytes := (natOfStart sti).bind (fun st => replaceAll p s t st)
+       withMirror (StrC.replaceAll p s t sti) spec args
+       (match spec with
         | none => .err args
-        | some r => if Kmp.replaceAll p s t st == r then .ok (.str 0 r) args else .ok (.other "KMP-MISMATCH") args)
+        | some r => if (natOfStart sti).map (fun st => Kmp.replaceAll p s t st) == some r then .ok (.str 0 r) args else .ok (.other "KMP-MISMATCH") args)
      | _, _, _, _ => .err args)
   | "string/split", pat :: text :: rest =>
     if rest.length > 2 then .err args else
